@@ -935,6 +935,49 @@ func (fi *FuncInfo) PathOf(v ssa.Value) (parts []*Term, ok bool) {
 			}
 			return parts, true
 		}
+		// a repository helper that returns the path (func (s *T) keyPath() string { return filepath.Join(s.dir, name) }):
+		// the path its returns build, when they agree on the file name
+		if sc := x.Call.StaticCallee(); sc != nil && IsRepoFunc(sc) && len(sc.Blocks) > 0 && sc.Signature.Results().Len() == 1 && !fi.pathBusy {
+			if b, ok := sc.Signature.Results().At(0).Type().Underlying().(*types.Basic); ok && b.Kind() == types.String {
+				cfi := fi.P.Info(sc)
+				if cfi != nil && !cfi.pathBusy {
+					cfi.pathBusy = true
+					var last *Term
+					var got []*Term
+					okAll := true
+					for _, cb := range sc.Blocks {
+						if len(cb.Instrs) == 0 {
+							continue
+						}
+						ret, isRet := cb.Instrs[len(cb.Instrs)-1].(*ssa.Return)
+						if !isRet || len(ret.Results) != 1 {
+							continue
+						}
+						sub, ok := cfi.PathOf(ret.Results[0])
+						if !ok || len(sub) == 0 || sub[len(sub)-1].K != KConst {
+							okAll = false
+							break
+						}
+						if last != nil && last.Key() != sub[len(sub)-1].Key() {
+							okAll = false
+							break
+						}
+						last, got = sub[len(sub)-1], sub
+					}
+					cfi.pathBusy = false
+					if okAll && last != nil {
+						for _, t := range got {
+							if t.K == KConst {
+								parts = append(parts, t)
+							} else {
+								parts = append(parts, fi.InstantiateTerm(t, x))
+							}
+						}
+						return parts, true
+					}
+				}
+			}
+		}
 	case *ssa.Phi:
 		// both branches must agree on the last (file name) component
 		var last *Term
